@@ -1430,7 +1430,9 @@ ldb_versions_apply(ldb_versions_t *vset, ldb_edit_t *edit, ldb_mutex_t *mu) {
 }
 
 static int
-ldb_versions_reuse_manifest(ldb_versions_t *vset, const char *dscname) {
+ldb_versions_reuse_manifest(ldb_versions_t *vset,
+                            const char *dscname,
+                            uint64_t valid_size) {
   ldb_filetype_t manifest_type;
   uint64_t manifest_number;
   uint64_t manifest_size;
@@ -1445,6 +1447,8 @@ ldb_versions_reuse_manifest(ldb_versions_t *vset, const char *dscname) {
   if (!ldb_parse_filename(&manifest_type, &manifest_number, dscbase) ||
       manifest_type != LDB_FILE_DESC ||
       ldb_file_size(dscname, &manifest_size) != LDB_OK ||
+      /* Records appended after a torn or damaged tail would be lost. */
+      manifest_size != valid_size ||
       /* Make new compacted MANIFEST if old one is too big. */
       manifest_size >= target_file_size(vset->options)) {
     return 0;
@@ -1531,6 +1535,7 @@ ldb_versions_recover(ldb_versions_t *vset, int *save_manifest) {
   uint64_t last_sequence = 0;
   uint64_t log_number = 0;
   uint64_t prev_log_number = 0;
+  uint64_t valid_size = 0;
   int read_records = 0;
   builder_t builder;
   ldb_rfile_t *file;
@@ -1608,6 +1613,8 @@ ldb_versions_recover(ldb_versions_t *vset, int *save_manifest) {
       }
     }
 
+    valid_size = reader.last_end_offset;
+
     ldb_edit_clear(&edit);
     ldb_buffer_clear(&buf);
     ldb_reader_clear(&reader);
@@ -1647,7 +1654,7 @@ ldb_versions_recover(ldb_versions_t *vset, int *save_manifest) {
     vset->prev_log_number = prev_log_number;
 
     /* See if we can reuse the existing MANIFEST file. */
-    if (ldb_versions_reuse_manifest(vset, fname)) {
+    if (ldb_versions_reuse_manifest(vset, fname, valid_size)) {
       /* No need to save new manifest. */
     } else {
       *save_manifest = 1;
